@@ -103,6 +103,7 @@ type eng struct {
 	holder    map[uint64]*actorT
 	rootHold  *actorT
 	watches   []<-chan struct{}
+	retained  []retained
 	draining  bool
 	inits     map[string]func(statedb.WriteTxn)
 	ntab0     int // number of initial tables
@@ -537,8 +538,44 @@ func (e *eng) notePoint(a *actorT, p string) {
 	}
 }
 
+// retained snapshots (C01 oracle): every read transaction the observer takes is kept with what it showed; whatever
+// happens later (commits, aborts, registrations, the collector), it must show the same for ever
+type retained struct {
+	txn  statedb.ReadTxn
+	dump string
+}
+
+func (e *eng) fullDump(txn statedb.ReadTxn) (s string) {
+	defer func() {
+		if r := recover(); r != nil {
+			s = "panic:" + hx.PanicClass(r)
+		}
+	}()
+	var parts []string
+	for _, meta := range e.db.GetTables(txn) {
+		parts = append(parts, fmt.Sprintf("%s@%d#%d%s", meta.Name(), meta.Revision(txn), meta.NumObjects(txn),
+			idsOf(statedb.AnyTable{Meta: meta}.All(txn))))
+	}
+	return strings.Join(parts, ";")
+}
+
+func (e *eng) checkRetained(now statedb.ReadTxn) string {
+	bad := ""
+	for _, r := range e.retained {
+		if bad == "" && e.fullDump(r.txn) != r.dump {
+			bad = " !BAD:C01:retained-snapshot-changed"
+		}
+	}
+	if len(e.retained) < 96 {
+		e.retained = append(e.retained, retained{now, e.fullDump(now)})
+	}
+	return bad
+}
+
 func (e *eng) obs() string {
-	root := e.dump(e.db.ReadTxn())
+	rtxn := e.db.ReadTxn()
+	root := e.dump(rtxn)
+	bad := e.checkRetained(rtxn)
 	e.mu.Lock()
 	defer e.mu.Unlock()
 	var wb strings.Builder
@@ -555,7 +592,7 @@ func (e *eng) obs() string {
 			en = append(en, a.name)
 		}
 	}
-	return fmt.Sprintf("root=[%s] w=%s en=[%s]", root, wb.String(), strings.Join(en, ","))
+	return fmt.Sprintf("root=[%s] w=%s en=[%s]%s", root, wb.String(), strings.Join(en, ","), bad)
 }
 
 const tag = "P:C02,C05,C06,C09,C10,C19"
